@@ -38,7 +38,7 @@ type orderCtx struct {
 
 // orderedExpr: is iteration over the collection denoted by e ordered? (true, "") or (false, reason)
 func (o *orderCtx) orderedColl(p *packages.Package, fd *ast.FuncDecl, e ast.Expr, depth int) (bool, string) {
-	if depth > 6 {
+	if depth > 12 {
 		return false, "resolution too deep"
 	}
 	info := p.TypesInfo
@@ -164,7 +164,7 @@ func (o *orderCtx) orderedElems(p *packages.Package, fd *ast.FuncDecl, x ast.Exp
 	}
 	o.busy[bk] = true
 	defer delete(o.busy, bk)
-	if depth > 6 {
+	if depth > 12 {
 		return false, "resolution too deep"
 	}
 	res, why, n := true, "", 0
@@ -219,6 +219,38 @@ func (o *orderCtx) orderedElems(p *packages.Package, fd *ast.FuncDecl, x ast.Exp
 				}
 				return true
 			})
+		}
+	}
+	if n == 0 {
+		// x is a field of a struct (d.trans): the elements are put into it by other functions of the package, through any
+		// receiver variable: match Put calls on the same field
+		if xs, ok := ast.Unparen(x).(*ast.SelectorExpr); ok {
+			if fld, ok := info.Uses[xs.Sel].(*types.Var); ok && fld.IsField() {
+				AllFuncDecls(p, func(sfd *ast.FuncDecl) {
+					if sfd.Body == nil {
+						return
+					}
+					ast.Inspect(sfd.Body, func(nd ast.Node) bool {
+						call, ok := nd.(*ast.CallExpr)
+						if !ok || len(call.Args) != 2 {
+							return true
+						}
+						sel, ok := call.Fun.(*ast.SelectorExpr)
+						if !ok || sel.Sel.Name != "Put" {
+							return true
+						}
+						rs, ok := ast.Unparen(sel.X).(*ast.SelectorExpr)
+						if !ok || info.Uses[rs.Sel] != types.Object(fld) {
+							return true
+						}
+						n++
+						if ok2, w := o.orderedColl(p, sfd, call.Args[1], depth+1); !ok2 {
+							res, why = false, w
+						}
+						return true
+					})
+				})
+			}
 		}
 	}
 	if n == 0 {
@@ -319,7 +351,7 @@ func (o *orderCtx) rangeOrdered(p *packages.Package, fd *ast.FuncDecl, rs *ast.R
 			}
 		}
 		// a concrete iterator-returning method/function: ordered iff every range inside it is
-		if dp, dfd := o.declOf(fn); dfd != nil && depth < 5 {
+		if dp, dfd := o.declOf(fn); dfd != nil && depth < 8 {
 			res, why := true, ""
 			ast.Inspect(dfd.Body, func(nd ast.Node) bool {
 				if r2, ok := nd.(*ast.RangeStmt); ok {
